@@ -10,7 +10,8 @@ ID = "C09"
 SECTIONS = ["printing"]
 LEAN_MODULES = ["QExPy.Props.C09"]
 THEOREMS = ["QExPy.C09_total", "QExPy.C09_round_bound", "QExPy.C09_ilog10_spec",
-            "QExPy.C09_sig_round", "QExPy.C09_model_ok"]
+            "QExPy.C09_sig_round", "QExPy.C09_model_ok", "QExPy.C09_spec_sig_figs",
+            "QExPy.C09_model_sig_figs"]
 RULE = ("value/uncertainty pairs built from decimal mantissas of 1-12 digits times 10^k with "
         "magnitudes in [1e-12, 1e12]: random digits, just below a decade (95..99x), exact powers of "
         "ten, within 1e-9 of a power of ten, rounding ties (…5), either sign of the value, value 0, "
